@@ -14,13 +14,21 @@ _gaddr = z3.Function('debug_addr.entry', IntS, IntS, IntS)
 @_native
 def gaddr(I, cu, index):
     """the address the unit's address table holds at `index` (get_addr)"""
-    return _gaddr(z3.IntVal(0), to_int(index))
+    return _gaddr(to_int(cu.attrs['cu_offset']), to_int(index))
 
 
 @_native
-def word_at_addr(I, B, p):
-    """address-sized word at p"""
-    return z3.Function('Dwarf_target_addr', ArrS, IntS, IntS)(B.arr, to_int(p))
+def word_at_addr(I, B, p, W):
+    """address-sized word (W bytes) at p"""
+    from specs.k1_layouts import dwarf_word
+    return dwarf_word(B.arr, to_int(p), to_int(W))
+
+
+@_native
+def offset_word(I, B, p, fmt):
+    """offset-sized word at p: 4 bytes in the 32-bit DWARF format, 8 in the 64-bit format"""
+    from specs.k1_layouts import dwarf_word
+    return dwarf_word(B.arr, to_int(p), z3.If(to_int(fmt) == 32, 4, 8))
 
 
 def pair_off(p, W, k):
@@ -29,3 +37,80 @@ def pair_off(p, W, k):
 
 def loc_next(B, o):
     raise NotImplementedError
+
+
+@_native
+def is_kind(I, rec, name):
+    """the record is an instance of the named entry class"""
+    from pyvc.vals import kind_id, SRec
+    if not isinstance(rec, SRec):
+        # element of an empty sequence (no such element exists): unconstrained
+        return I.ctx.const('kind!nil', z3.BoolSort())
+    return rec.tag_term() == kind_id(name)
+
+
+def _is_kind_py(rec, name):
+    return type(rec).__name__ == name
+
+
+is_kind.py = _is_kind_py
+
+
+@_native
+def rnglist_at(I, B, p):
+    """decoded v5 range list at p (the value struct_parse(Dwarf_rnglists_entries) yields there)"""
+    from specs.k1_layouts import list_entries_value, RLE_KINDS
+    return list_entries_value('Dwarf_rnglists_entries', RLE_KINDS, B.arr, p)
+
+
+@_native
+def loclist_at(I, B, p):
+    from specs.k1_layouts import list_entries_value, LLE_KINDS
+    return list_entries_value('Dwarf_loclists_entries', LLE_KINDS, B.arr, p)
+
+
+_hasb = z3.Function('unit.has_base', IntS, z3.StringSort(), z3.BoolSort())
+_baseof = z3.Function('unit.base', IntS, z3.StringSort(), IntS)
+
+
+@_native
+def has_base(I, cu, name):
+    """the unit's root entry carries the base attribute"""
+    from pyvc.vals import to_str
+    return _hasb(to_int(cu.attrs['cu_offset']), to_str(name))
+
+
+@_native
+def base_of(I, cu, name):
+    from pyvc.vals import to_str
+    return _baseof(to_int(cu.attrs['cu_offset']), to_str(name))
+
+
+@_native
+def u16_at(I, B, p):
+    return z3.Function('Dwarf_uint16', ArrS, IntS, IntS)(B.arr, to_int(p))
+
+
+_locoff = z3.Function('loc_off', ArrS, IntS, IntS, IntS, IntS)
+
+
+@_native
+def loc_off(I, B, p, W, k):
+    """offset of the k-th entry of the pre-v5 location list at p (address size W): a base selection
+    entry (first word all ones) takes 2W bytes, a location entry 2W + 2 + its expression length"""
+    return _locoff(B.arr, to_int(p), to_int(W), to_int(k))
+
+
+def _unfold_locoff(t):
+    from specs.k1_layouts import dwarf_word
+    arr, p, W, k = t.arg(0), t.arg(1), t.arg(2), t.arg(3)
+    prev = _locoff(arr, p, W, k - 1)
+    first = dwarf_word(arr, prev, W)
+    u16 = z3.Function('Dwarf_uint16', ArrS, IntS, IntS)
+    mx = z3.If(W == 4, 2 ** 32 - 1, 2 ** 64 - 1)
+    return [_locoff(arr, p, W, 0) == p,
+            z3.Implies(k >= 1, t == z3.If(first == mx, prev + 2 * W, prev + 2 * W + 2 + u16(arr, prev + 2 * W)))]
+
+
+from pyvc.verify import register_recdef
+register_recdef('loc_off', _unfold_locoff)
